@@ -274,7 +274,8 @@ def main(argv: List[str]) -> int:
             bad += 1
         print(f"{r['id']:<42} {flag:<18} {','.join(r.get('rules', []))} {r.get('why', '')}")
     stale = sum(1 for r in res if r['status'] == 'not-applicable')
-    print(f'{len(res)} cases, {bad} need attention, {stale} stale anchors')
+    other = sum(1 for r in res if r['status'] == 'caught-other-rule')
+    print(f'{len(res)} cases, {bad} need attention, {stale} stale anchors' + (f', {other} caught by another rule than expected' if other else ''))
     return 1 if bad else 0
 
 
